@@ -136,6 +136,21 @@ func Corpus(id int, withRestart bool) []*Case {
 	s.vote(2, 0, 4)
 	add(s)
 
+	// a strictly shorter branch is finalized through links in its block headers while the node follows a longer
+	// unvoted branch: the main chain must move to the finalized branch
+	s = newScen(id, "corpus-short-branch-finalized", 4, Outsider)
+	a = s.chain(0, 11)
+	b1 := s.chain(0, 3) // 12..14
+	b4 := s.blk(b1[2], valid(0, 15, 1, 2, 3))
+	b7 := s.chain(b4, 3) // 16..18
+	b8x := s.blk(b7[2], valid(b4, 19, 1, 2, 3))
+	s.deliver(a...)
+	s.deliver(b1...)
+	s.deliver(b4)
+	s.deliver(b7...)
+	s.deliver(b8x)
+	add(s)
+
 	if withRestart {
 		// forged signatures in a block header count after the node is reopened
 		s = newScen(id, "corpus-forged-reload", 4, 0)
